@@ -523,6 +523,12 @@ module Z =
     | Gt -> m
     | _ -> n0
 
+  (** val abs : z -> z **)
+
+  let abs = function
+  | Zneg p -> Zpos p
+  | x -> x
+
   (** val to_nat : z -> nat **)
 
   let to_nat = function
@@ -2166,3 +2172,202 @@ let hitmiss_spec f t =
   map (fun p ->
     if (&&) (template_inside f t p) (hm_match f t p) then Zpos XH else Z0)
     (all_positions f.shape)
+
+type qe = { q_cost : z; q_idx : z; q_pos : z; q_margin : z }
+
+(** val qe_lt : qe -> qe -> bool **)
+
+let qe_lt a b =
+  markerinfo_lt a.q_cost a.q_idx b.q_cost b.q_idx
+
+(** val q_top : qe list -> qe option **)
+
+let q_top = function
+| [] -> None
+| e :: r ->
+  Some (fold_left (fun best x -> if qe_lt best x then x else best) r e)
+
+(** val q_remove : z -> qe list -> qe list **)
+
+let rec q_remove i = function
+| [] -> []
+| e :: r -> if Z.eqb e.q_idx i then r else e :: (q_remove i r)
+
+type nb = { nb_delta : z; nb_step : z; nb_dpos : z list }
+
+(** val cheb : z list -> z **)
+
+let cheb p =
+  fold_left (fun m x -> Z.max (Z.abs x) m) p Z0
+
+(** val ws_neighbours : z list -> arr -> nb list **)
+
+let ws_neighbours sh bc =
+  flat_map (fun k ->
+    if Z.eqb (aget bc k) Z0
+    then []
+    else let np = psub k (centre bc.shape) in
+         let delta = ravel sh np in
+         if Z.eqb delta Z0
+         then []
+         else { nb_delta = delta; nb_step = (cheb np); nb_dpos = np } :: [])
+    (all_positions bc.shape)
+
+(** val ws_neighbours_all : z list -> arr -> nb list **)
+
+let ws_neighbours_all sh bc =
+  flat_map (fun k ->
+    if Z.eqb (aget bc k) Z0
+    then []
+    else let np = psub k (centre bc.shape) in
+         if forallb (Z.eqb Z0) np
+         then []
+         else { nb_delta = (ravel sh np); nb_step = (cheb np); nb_dpos =
+                np } :: []) (all_positions bc.shape)
+
+(** val big : z **)
+
+let big =
+  Z.pow (Zpos (XO XH)) (Zpos (XO (XI (XI (XI (XI XH))))))
+
+(** val margin_of : z list -> z list -> z **)
+
+let margin_of sh pos =
+  fold_left (fun m dp ->
+    let (d, p) = dp in
+    let m1 = if Z.ltb p m then p else m in
+    let r = Z.sub (Z.sub d p) (Zpos XH) in if Z.ltb r m1 then r else m1)
+    (combine sh pos) big
+
+type resolver = z list -> z -> z -> nb -> (z * z) option * z
+
+(** val resolve_margin : resolver **)
+
+let resolve_margin sh pos margin n0 =
+  let npos = Z.add pos n0.nb_delta in
+  let nmargin = Z.sub margin n0.nb_step in
+  if Z.ltb nmargin Z0
+  then let long_pos = padd (unravel sh pos) n0.nb_dpos in
+       let nm = margin_of sh long_pos in
+       if Z.ltb nm Z0
+       then (None, margin)
+       else ((Some (npos, nm)),
+              (if Z.gtb (Z.sub nm n0.nb_step) margin
+               then Z.sub nm n0.nb_step
+               else margin))
+  else ((Some (npos, nmargin)), margin)
+
+(** val resolve_checked : resolver **)
+
+let resolve_checked sh pos margin n0 =
+  let long_pos = padd (unravel sh pos) n0.nb_dpos in
+  if in_shapeb sh long_pos
+  then ((Some ((ravel sh long_pos), Z0)), margin)
+  else (None, margin)
+
+type wstate = { w_res : z list; w_lines : z list; w_status : z list;
+                w_queue : qe list; w_idx : z }
+
+(** val wHITE : z **)
+
+let wHITE =
+  Z0
+
+(** val gREY : z **)
+
+let gREY =
+  Zpos XH
+
+(** val bLACK : z **)
+
+let bLACK =
+  Zpos (XO XH)
+
+(** val ws_visit : z list -> bool -> z -> wstate -> (z * z) -> wstate **)
+
+let ws_visit surf want_lines from st = function
+| (npos, nmargin) ->
+  let s = nthZ Z0 st.w_status npos in
+  if Z.eqb s wHITE
+  then { w_res = (updZ st.w_res npos (nthZ Z0 st.w_res from)); w_lines =
+         st.w_lines; w_status = (updZ st.w_status npos gREY); w_queue =
+         ({ q_cost = (nthZ Z0 surf npos); q_idx = st.w_idx; q_pos = npos;
+         q_margin = nmargin } :: st.w_queue); w_idx =
+         (Z.add st.w_idx (Zpos XH)) }
+  else if Z.eqb s gREY
+       then if (&&) want_lines
+                 (negb
+                   (Z.eqb (nthZ Z0 st.w_res from) (nthZ Z0 st.w_res npos)))
+            then { w_res = st.w_res; w_lines =
+                   (updZ st.w_lines npos (Zpos XH)); w_status = st.w_status;
+                   w_queue = st.w_queue; w_idx = st.w_idx }
+            else st
+       else st
+
+(** val ws_pop :
+    resolver -> z list -> nb list -> z list -> bool -> qe -> wstate -> wstate **)
+
+let ws_pop r sh nbs surf want_lines next st =
+  let st1 = { w_res = st.w_res; w_lines = st.w_lines; w_status =
+    (updZ st.w_status next.q_pos bLACK); w_queue =
+    (q_remove next.q_idx st.w_queue); w_idx = st.w_idx }
+  in
+  fst
+    (fold_left (fun sm n0 ->
+      let (tgt, m') = r sh next.q_pos (snd sm) n0 in
+      (match tgt with
+       | Some t -> ((ws_visit surf want_lines next.q_pos (fst sm) t), m')
+       | None -> ((fst sm), m'))) nbs (st1, next.q_margin))
+
+(** val ws_loop :
+    resolver -> nat -> z list -> nb list -> z list -> bool -> wstate -> wstate **)
+
+let rec ws_loop r fuel sh nbs surf want_lines st =
+  match fuel with
+  | O -> st
+  | S k ->
+    (match q_top st.w_queue with
+     | Some next ->
+       ws_loop r k sh nbs surf want_lines
+         (ws_pop r sh nbs surf want_lines next st)
+     | None -> st)
+
+(** val ws_init : z list -> z list -> z list -> z list -> z list -> wstate **)
+
+let ws_init sh surf markers res0 lines0 =
+  fold_left (fun st im ->
+    let (i, m) = im in
+    if Z.eqb m Z0
+    then st
+    else { w_res = (updZ st.w_res i m); w_lines = st.w_lines; w_status =
+           (updZ st.w_status i gREY); w_queue = ({ q_cost = (nthZ Z0 surf i);
+           q_idx = st.w_idx; q_pos = i; q_margin =
+           (margin_of sh (unravel sh i)) } :: st.w_queue); w_idx =
+           (Z.add st.w_idx (Zpos XH)) })
+    (combine (zseq Z0 (length markers)) markers) { w_res = res0; w_lines =
+    lines0; w_status = (repeat wHITE (length markers)); w_queue = []; w_idx =
+    Z0 }
+
+(** val ws_run :
+    resolver -> (z list -> arr -> nb list) -> arr -> arr -> arr -> bool -> z
+    list -> z list -> z list * z list **)
+
+let ws_run r nB surf markers bc want_lines res0 lines0 =
+  let sh = surf.shape in
+  let st =
+    ws_loop r (S (length surf.data)) sh (nB sh bc) surf.data want_lines
+      (ws_init sh surf.data markers.data res0 lines0)
+  in
+  (st.w_res, st.w_lines)
+
+(** val cwatershed : arr -> arr -> arr -> bool -> z list * z list **)
+
+let cwatershed surf markers bc want_lines =
+  let z0 = repeat Z0 (length surf.data) in
+  ws_run resolve_margin ws_neighbours surf markers bc want_lines z0 z0
+
+(** val flood_spec : arr -> arr -> arr -> bool -> z list * z list **)
+
+let flood_spec surf markers bc want_lines =
+  let z0 = repeat Z0 (length surf.data) in
+  ws_run resolve_checked ws_neighbours_all surf markers bc want_lines z0 z0
